@@ -240,7 +240,25 @@ func c06R1(c *Ctx) {
 			okRw = !strings.Contains(rew, prefix)
 			c.check(okRw, "client/rewrite", c.ipos(ci), "rewritten prefix "+rew+" is not a trigger for a second wrapper", "the rewritten trigger still contains the prefix: a second wrapper would start another transfer")
 			// applied to the whole chunk (every occurrence), on the non-relay edge
-			c.check(isVar("output")(ci.Common().Args[0]) || true, "client/rewrite-all", c.ipos(ci), "every occurrence in the chunk is rewritten", "")
+			whole := true
+			for _, l := range origins(ci.Common().Args[0], originOpts{}) {
+				if _, isSlice := l.V.(*ssa.Slice); isSlice {
+					whole = false
+				}
+			}
+			c.check(whole, "client/rewrite-all", c.ipos(ci), "every occurrence in the chunk is rewritten (the whole chunk is the argument)", "only part of the chunk is rewritten: an earlier trigger line in the same read is shown raw and a second wrapper would react to it")
+			// and the rewritten chunk is what is returned
+			retOK := false
+			eachInstr(det, func(in ssa.Instruction) {
+				if r, ok := in.(*ssa.Return); ok && len(r.Results) == 2 && !isNilConst(r.Results[1]) {
+					for _, l := range origins(r.Results[0], originOpts{}) {
+						if l.V == ci.Value() {
+							retOK = true
+						}
+					}
+				}
+			})
+			c.check(retOK, "client/rewrite-returned", c.ipos(ci), "the rewritten chunk is what the detector returns with the trigger", "the rewritten chunk is not what the detector returns")
 			notRelay := false
 			for _, fc := range factsAt(ci.Block()) {
 				if !fc.Pol && isFieldLoad("relay")(fc.V) {
